@@ -373,6 +373,14 @@ func ruleRestore(id string) func(*Checker) {
 			if !okc {
 				continue
 			}
+			// draining a stream into io.Discard writes no entry body
+			if len(v.Args) > 0 {
+				if ld, ok := canon(v.Args[0]).(*ssa.UnOp); ok {
+					if g, ok := ld.X.(*ssa.Global); ok && g.Name() == "Discard" && g.Pkg.Pkg.Path() == "io" {
+						continue
+					}
+				}
+			}
 			ncopy++
 			ok, off := mustPassOK(call, isRestore, func(r *ssa.Return) bool {
 				return !mayReturnNilErr(r)
